@@ -23,6 +23,7 @@ Clauses(c) ==
      \cup (IF {c.regsafter[k] : k \in 1..Len(c.regsafter)} = RegsAfterCalls(c.op, regs, c.v, r.calls) THEN {} ELSE {"registrations-after"})
      \* handlers of x are not called for the sibling attribute x2, and the object-level handlers hear of x2 exactly once
      \cup (IF c.stray = 0 THEN {} ELSE {"C02-handler-called-for-another-trait"})
+     \cup (IF c.added3 = 1 THEN {} ELSE {"C02-static-handlers-of-a-trait-added-at-run-time"})
      \* the on_trait_change mechanism is registered by two bound methods of two EQUAL but distinct listener objects: both
      \* are handlers in their own right - the twin hears exactly what the first one hears
      \* (one-shot steps: the first listener's method removes both registrations while it runs - the twin is not judged)
